@@ -1,169 +1,12 @@
-"""C03 -- retransmission of confirmable messages"""
+"""C03 -- retransmission of confirmable messages: timing lemmas and tuning formulas
+(the MessageManager functions themselves are under contract in contracts/mm.py)"""
 import z3
 from pyvc.values import *   # noqa
 from pyvc.registry import MAY
-from contracts.mm import MM, KEY
 
 
 def register(reg, prog):
     P = ['C03']
-
-    def lg(kind, *names):
-        def g(ex, st, env, result):
-            st.log.append((kind,) + tuple(env[n] for n in names))
-        return g
-
-    def evs(s, kind):
-        return [e for e in s.log if e[0] == kind]
-
-    # ---- _schedule_retransmit: one timer, whose callback re-enters _retransmit with exactly these arguments
-    def sched_exit(ex, s, entry, env, result):
-        cl = evs(s, 'call_later')
-        g = [('one-timer', z3.BoolVal(len(cl) == 1))]
-        if len(cl) != 1:
-            return g
-        _, delay, cb, extra, handle = cl[0]
-        g.append(('delay-is-timeout', ex.eq(s, delay, env['timeout'])))
-        g.append(('returns-handle', result.t == handle.t))
-        # run the scheduled callback symbolically: it must call _retransmit(message, timeout, counter) once
-        s2 = s.copy()
-        n0 = len(s2.log)
-        save = ex.collect_only
-        ex.collect_only = True        # the callback's own obligations belong to _retransmit's contract
-        try:
-            outs = ex.call(s2, cb, list(extra), {}, None)
-        finally:
-            ex.collect_only = save
-        ok = len(outs) == 1 and outs[0][0].exc is None
-        g.append(('callback-runs', z3.BoolVal(ok)))
-        if ok:
-            calls = [e for e in outs[0][0].log[n0:] if e[0] == '_retransmit']
-            g.append(('callback-retransmits-once', z3.BoolVal(len(calls) == 1)))
-            if len(calls) == 1:
-                g.append(('callback-same-message', calls[0][2].t == env['message'].t))
-                g.append(('callback-same-timeout', ex.eq(outs[0][0], calls[0][3], env['timeout'])))
-                g.append(('callback-same-counter', ex.eq(outs[0][0], calls[0][4], env['retransmission_counter'])))
-                g.append(('callback-same-manager', calls[0][1].t == env['self'].t))
-        return g
-
-    reg.contract(MM + '._schedule_retransmit', params={'message': Ref('Message'), 'timeout': REAL, 'retransmission_counter': INT},
-                 result=Ref('TimerHandle'), properties=P, only_raises=True, at_exit=sched_exit,
-                 ghost=lg('schedule', 'self', 'message', 'timeout', 'retransmission_counter'))
-
-    reg.contract(MM + '._send_via_transport', params={'message': Ref('Message')}, properties=P, only_raises=True,
-                 ghost=lg('wire', 'message'),
-                 at_exit=lambda ex, s, entry, env, result: [
-                     ('one-datagram', z3.BoolVal(len(evs(s, 'wire')) == 1)),
-                     ('same-message-object', z3.And(z3.BoolVal(True), *[e[1].t == env['message'].t for e in evs(s, 'wire')]))])
-
-    # ---- _retransmit
-    def retr_exit(ex, s, entry, env, result):
-        msg = env['message']
-        ev = lambda text, **kw: ex.truth(s, ex.spec_val(s, text, env=dict(env, **kw), old_st=entry))
-        more = ev('retransmission_counter < message.transport_tuning.MAX_RETRANSMIT')
-        wires, scheds, errs = evs(s, 'wire'), evs(s, 'schedule'), evs(s, 'tm_dispatch_error')
-        g = []
-        g.append(('resend-iff-budget-left', z3.BoolVal(len(wires) == 1) == more))
-        g.append(('at-most-one-copy', z3.BoolVal(len(wires) <= 1)))
-        for e in wires:
-            g.append(('byte-identical-copy(same object)', e[1].t == msg.t))
-        g.append(('reschedule-iff-resend', z3.BoolVal(len(scheds) == len(wires))))
-        for e in scheds:
-            g.append(('timeout-doubles', ex.truth(s, ex.spec_val(s, 't2 == 2 * timeout', env=dict(env, t2=e[3])))))
-            g.append(('counter-increments', ex.truth(s, ex.spec_val(s, 'c2 == retransmission_counter + 1', env=dict(env, c2=e[4])))))
-            g.append(('same-message-rescheduled', e[2].t == msg.t))
-        g.append(('give-up-fails-request-once', z3.BoolVal(len(errs) == 1) == z3.Not(more)))
-        for e in errs:
-            g.append(('error-for-this-endpoint', ev('r is message.remote', r=e[3])))
-            g.append(('error-is-timeout-class', z3.BoolVal(ex.issub(e[2].cls, 'aiocoap.error:ConRetransmitsExceeded')
-                                                           and ex.issub('aiocoap.error:ConRetransmitsExceeded', 'aiocoap.error:TimeoutError')
-                                                           and ex.issub('aiocoap.error:TimeoutError', 'aiocoap.error:NetworkError')
-                                                           and ex.issub('aiocoap.error:NetworkError', 'aiocoap.error:Error'))))
-        g.append(('exchange-stays-iff-resend', ev('((message.remote, message.mid) in self._active_exchanges)') == more))
-        g.append(('backlog-dropped-on-give-up', z3.Implies(z3.Not(more), ev('message.remote not in self._backlogs'))))
-        g.append(('old-timer-cancelled', z3.BoolVal(len(evs(s, 'cancel')) == 1)))
-        return g
-
-    reg.externals['TokenManagerI.dispatch_error'] = lambda ex, st, args, kw, node: (st.log.append(('tm_dispatch_error',) + tuple(args)), [(st, VNone())])[1]
-
-    reg.contract(MM + '._retransmit', params={'message': Ref('Message'), 'timeout': REAL, 'retransmission_counter': INT},
-                 properties=P, only_raises=True,
-                 requires=['self._active_exchanges is not None', 'message.remote is not None', 'message.mid is not None',
-                           '(message.remote, message.mid) in self._active_exchanges', 'message.remote in self._backlogs',
-                           'retransmission_counter >= 0'],
-                 ghost=lg('_retransmit', 'self', 'message', 'timeout', 'retransmission_counter'),
-                 modifies=['dict:self._active_exchanges', 'dict:self._backlogs'],
-                 at_exit=retr_exit)
-
-    # ---- _add_exchange: initial timeout from the message's own tuning
-    def add_exit(ex, s, entry, env, result):
-        ev = lambda text, **kw: ex.truth(s, ex.spec_val(s, text, env=dict(env, **kw), old_st=entry))
-        scheds = evs(s, 'schedule')
-        g = [('one-timer', z3.BoolVal(len(scheds) == 1))]
-        for e in scheds:
-            g.append(('initial-timeout-in-range',
-                      ev('message.transport_tuning.ACK_TIMEOUT <= t0 <= message.transport_tuning.ACK_TIMEOUT * message.transport_tuning.ACK_RANDOM_FACTOR', t0=e[3])))
-            g.append(('counter-starts-at-0', ev('c == 0', c=e[4])))
-            g.append(('for-this-message', e[2].t == env['message'].t))
-        g.append(('exchange-registered', ev('(message.remote, message.mid) in self._active_exchanges')))
-        g.append(('backlog-key-exists', ev('message.remote in self._backlogs')))
-        g.append(('monitor-stored', ev('self._active_exchanges[(message.remote, message.mid)][0] is messageerror_monitor')))
-        return g
-
-    reg.contract(MM + '._add_exchange', params={'message': Ref('Message'), 'messageerror_monitor': CALLABLE}, properties=P,
-                 requires=['self._active_exchanges is not None', 'message.remote is not None', 'message.mid is not None',
-                           'message.transport_tuning.ACK_RANDOM_FACTOR >= 1', 'message.transport_tuning.ACK_TIMEOUT > 0'],
-                 only_raises=True, at_exit=add_exit,
-                 ghost=lg('_add_exchange', 'self', 'message', 'messageerror_monitor'),
-                 modifies=['dict:self._active_exchanges', 'dict:self._backlogs', '*lists'],
-                 ensures={'registered': '(message.remote, message.mid) in self._active_exchanges',
-                          'backlog-key': 'message.remote in self._backlogs'})
-
-    # ---- the NSTART object invariant (also used by C14)
-    @reg.specfunc('nstart_inv')
-    def nstart_inv(ex, st, mm):
-        """(r, m) active  =>  r has a backlog entry; at most one active exchange per endpoint"""
-        act = ex.read_field(st, mm, '_active_exchanges', reg.classes['MessageManager'].fields['_active_exchanges']).some()
-        bl = ex.read_field(st, mm, '_backlogs', reg.classes['MessageManager'].fields['_backlogs'])
-        ks = sort_of(act.k)
-        k1, k2 = z3.Const(fresh_name('k1'), ks), z3.Const(fresh_name('k2'), ks)
-        dom = ex.dict_dom(st, act)
-        bdom = ex.dict_dom(st, bl)
-        r = lambda k: ks.accessor(0, 0)(k)
-        rr = z3.Const(fresh_name('r'), ks.accessor(0, 0).range())
-        mm_ = z3.Const(fresh_name('m'), ks.accessor(0, 1).range())
-        return VBool(z3.And(
-            z3.ForAll([rr], z3.Implies(z3.Select(bdom, rr), z3.Exists([mm_], z3.Select(dom, ks.constructor(0)(rr, mm_))))),
-            z3.ForAll([k1], z3.Implies(z3.Select(dom, k1), z3.Select(bdom, r(k1)))),
-            z3.ForAll([k1, k2], z3.Implies(z3.And(z3.Select(dom, k1), z3.Select(dom, k2), r(k1) == r(k2)), k1 == k2))))
-
-    def rm_exit(ex, s, entry, env, result):
-        ev = lambda text, **kw: ex.truth(s, ex.spec_val(s, text, env=dict(env, **kw), old_st=entry))
-        present = ev('old((message.remote, message.mid) in self._active_exchanges)')
-        cancels, calls, conts = evs(s, 'cancel'), evs(s, 'call'), evs(s, '_continue_backlog')
-        g = []
-        g.append(('absent-key-changes-nothing', z3.Implies(z3.Not(present), z3.BoolVal(not cancels and not calls and not conts))))
-        g.append(('timer-cancelled-once-iff-present', z3.BoolVal(len(cancels) == 1) == present))
-        for e in cancels:
-            g.append(('cancels-this-exchange-timer', ev('h is old(self._active_exchanges[(message.remote, message.mid)][1])', h=e[1])))
-        g.append(('monitor-called-iff-reset', z3.BoolVal(len(calls) == 1) == z3.And(present, ev('message.mtype == 3'))))
-        g.append(('backlog-continued-iff-present', z3.BoolVal(len(conts) == 1) == present))
-        for e in conts:
-            g.append(('continues-backlog-of-this-endpoint', ev('r is message.remote', r=e[2])))
-        return g
-
-    reg.contract(MM + '._continue_backlog', params={'remote': Opt(Ref('Remote'))}, verify=False, properties=P,
-                 modifies=['dict:self._active_exchanges', 'dict:self._backlogs', '*lists'],
-                 requires=['remote in self._backlogs'],
-                 ghost=lg('_continue_backlog', 'self', 'remote'),
-                 trusted_reason='call-site summary; the body is verified for C14 (contracts/c14.py)')
-
-    reg.contract(MM + '._remove_exchange', params={'message': Ref('Message')}, properties=P,
-                 requires=['mm_wf(self)', 'nstart_inv(self)'],
-                 only_raises=True, at_exit=rm_exit,
-                 ghost=lg('_remove_exchange', 'self', 'message'),
-                 modifies=['dict:self._active_exchanges', 'dict:self._backlogs', '*lists'])
-
     # ---- timing lemma (reals): k-th retransmission at t0*(2^k - 1) after the first transmission
     reg.contract('lemma:C03/timing-step', params={'t0': REAL, 'P': REAL, 'sent_k': REAL}, properties=P,
                  requires=['t0 > 0', 'P >= 1', 'sent_k == t0 * (P - 1)'],
